@@ -910,7 +910,9 @@ def judge_c09(d, known, c08_known):
         if h["tabs"]:
             out.append("tab outside string contents: %r" % h["bad_line"])
         want_tr = d["if_exprs"]
-        if h["trailing"] != want_tr:
+        # only MORE trailing blanks than the listed class explains is a violation (an if-expression
+        # whose `if ` happens not to end a line leaves none)
+        if h["trailing"] > want_tr:
             out.append("%d line(s) with trailing whitespace outside strings (the listed classes account for %d): %r" % (h["trailing"], want_tr, h["bad_line"]))
         elif h["trailing"]:
             if d["if_exprs"]:
